@@ -115,7 +115,7 @@ func C18(c *Ctx) {
 	for _, st := range stores["config.Config.Output"] {
 		nOut++
 		d := c.ReachOf(st)
-		t := c.O.Of(st.Val)
+		t := c.OfInl(st.Val)
 		switch {
 		case d.Implies(outSet) && len(d) > 0 && !d.Implies(outUnset):
 			r.Check("C18-1", key+":Output:-out", c.InstrPos(st), outFlag(t) && afterParse(st), "with -out the output path must be the flag value read after flag.Parse, got "+t.String())
@@ -131,7 +131,7 @@ func C18(c *Ctx) {
 	// Log
 	for _, st := range stores["config.Config.Log"] {
 		d := c.ReachOf(st)
-		t := c.O.Of(st.Val)
+		t := c.OfInl(st.Val)
 		out := "field:config.Config.Output(param:" + fn.Params[0].Name() + ")"
 		ok := d.Implies(c.M(true, flagVal("Bool", "log"))) && t.Kind == "binop" && t.Name == "+" && t.Args[1].Is("const", `".log"`) && stem(t.Args[0], out)
 		// the store must come after both Output stores
@@ -186,14 +186,14 @@ func C18(c *Ctx) {
 		k := sprintf("%s:return%d", gk, i+1)
 		r.Check("C18-4", k+":returns-written-value", c.InstrPos(ret), val.String() == g.data.String(), "the returned bytes are not the written bytes: "+val.String())
 		blocked := map[*ssa.BasicBlock]bool{}
-		for _, s := range c.Calls(func(n string) bool { return n == "fmt.Println" || n == "fmt.Print" }) {
-			if s.Fn != g.fn {
+		for _, ps := range g.prints {
+			if ps.val.String() != val.String() {
 				continue
 			}
-			a := c.varargAt(s.Args()[0], 0)
-			if a != nil && a.Kind == "convert" && a.Name == "string" && a.Args[0].String() == val.String() {
-				blocked[s.Instr.Block()] = true
+			if ps.inner != nil && ps.inner != g.prtParam {
+				continue // printed under some other flag
 			}
+			blocked[ps.instr.Block()] = true
 		}
 		av := c.ReachAvoid(g.fn, blocked)
 		d := av.At(ret.Block())
@@ -218,5 +218,29 @@ func C18(c *Ctx) {
 			ok = a != nil && a.Kind == "convert" && a.Name == "string" && a.Args[0].String() == g.data.String()
 		}
 		r.Check("C18-4", gk+":success-print:"+shortCallee(s.Callee), c.Pos(s.Pos()), ok, "on a success path stdout must receive exactly string(<written bytes>) as an operand of fmt.Print/Println (a Printf would interpret % in the code)")
+	}
+	// prints through a local closure: on success paths the closure must be given the written bytes; the closure body itself
+	// must print with Print/Println only
+	for _, ps := range g.prints {
+		if !ps.viaClose {
+			continue
+		}
+		d := c.ReachOf(ps.instr)
+		if d.Implies(fmtOK) && len(d) > 0 {
+			r.Check("C18-4", gk+":success-print:closure", c.InstrPos(ps.instr), ps.val.String() == g.data.String(), "on a success path the print helper is given something other than the written bytes: "+ps.val.String())
+		}
+	}
+	for _, af := range g.fn.AnonFuncs {
+		for _, s := range c.Calls(func(n string) bool { return classify(n) == effOut }) {
+			if s.Fn != af {
+				continue
+			}
+			ok := s.Callee == "fmt.Println" || s.Callee == "fmt.Print"
+			if ok {
+				a := c.varargAt(s.Args()[0], 0)
+				ok = a != nil && a.Kind == "convert" && a.Name == "string" && a.Args[0].Kind == "param"
+			}
+			r.Check("C18-4", FnKey(af)+":print:"+shortCallee(s.Callee), c.Pos(s.Pos()), ok, "a print helper of the writing function must print string(<its argument>) as an operand of fmt.Print/Println")
+		}
 	}
 }
